@@ -86,6 +86,207 @@ def signature(live, unit=None):
     return {"flags": flags, "calls": calls, "signs": signs, "cond_arrays": cond_arrays}
 
 
+
+# ------------------------------------------------------------------------------------------------------------ island copies
+
+SYNC_CALLS = ("mju_gather", "mju_scatter", "mju_gatherInt", "mju_scatterInt")
+# guards under which an island copy is not consumed at all (one line of reason each)
+EXEMPT_FIELDS = {"nisland": "no islands were discovered: the island solver does not run and the i* copies are not read"}
+
+
+def _data_field(e):
+    e = cir.strip(e)
+    if e is not None and e.get("k") == "MemberExpr" and e.get("arrow"):
+        b = cir.strip(cir.kids(e)[0])
+        if b is not None and "mjData" in (b.get("t") or ""):
+            return e.get("n")
+    return None
+
+
+def _island_side(call):
+    """(island-side field, array-side field) of a gather / scatter between two mjData arrays through an island map, and whether the
+    call REFRESHES the island side (writes it from the array).  The island index domain is the one the map is indexed by (gather)
+    or maps from (scatter): map_i<X>2<X> is indexed by island position."""
+    a = cir.args(call)
+    x, y, mp = _data_field(a[0]), _data_field(a[1]), _data_field(a[2])
+    m = re.fullmatch(r"map_(\w+?)2(\w+)", mp or "")
+    if x is None or y is None or m is None:
+        return None
+    from_island = m.group(1).startswith("i") and not m.group(2).startswith("i")
+    to_island = m.group(2).startswith("i") and not m.group(1).startswith("i")
+    if not (from_island or to_island):
+        return None
+    gather = cir.callee(call).startswith("mju_gather")
+    # gather: dst[i] = src[map[i]]   -> dst lives in the map's index domain (first name), src in its value domain
+    # scatter: dst[map[i]] = src[i]  -> src lives in the index domain, dst in the value domain
+    dst_is_index_domain = gather
+    index_is_island = from_island
+    dst_island = (dst_is_index_domain == index_is_island)
+    return (x, y, True) if dst_island else (y, x, False)
+
+
+def island_copies(res):
+    """R-ISLAND-COPY: an island-ordered copy of an mjData array that a function refreshes for later code stays coherent.
+
+    A *refresh* is a gather / scatter through an island map of mjData whose destination is the island-ordered side.  If a function
+    refreshes a pair and nothing in that function consumes the island side (no call whose call-graph closure, including functions
+    passed as arguments, reads it), the refresh is done for the code that runs after the function, so the pair must be coherent
+    at every exit: each content write to either side (direct, or by a callee whose closure writes it) is followed on ALL paths
+    by the refresh, except on paths where `d->nisland` is known to be zero."""
+    from .. import callgraph, paths
+    res.rule("R-ISLAND-COPY", "a function that refreshes an island-ordered copy of an mjData array for later code (no consumer of the "
+             "copy inside the function) refreshes it on every path after each write to the array or the copy (nisland == 0 excepted)",
+             floor=2)
+    g = callgraph.build(reads=True)
+    _cw, _cr = {}, {}
+
+    def closure_sets(key):
+        if key not in _cw:
+            W, R = set(), set()
+            for k2 in g.closure([key]):
+                evs = g.funcs[k2]["events"]
+                ptr_assign = {(e["field"], e.get("line")) for e in evs if e["struct"] == "mjData" and e["kind"] == "assign"
+                              and e.get("depth", 0) == 0}
+                for e in evs:
+                    if e["struct"] != "mjData":
+                        continue
+                    if e["kind"] in ("elem", "pass", "addr", "alias") or (e["kind"] == "assign" and e.get("depth", 0) > 0):
+                        W.add(e["field"])          # (alias: a non-const local pointer to the array, written through later)
+                    if e["kind"] in ("pass", "addr", "alias") or (e["kind"] == "read" and not (
+                            e.get("depth", 0) == 0 and (e["field"], e.get("line")) in ptr_assign)):
+                        R.add(e["field"])          # (the `read` that accompanies `d->x = NULL` is not a consumer)
+            _cw[key], _cr[key] = W, R
+        return _cw[key], _cr[key]
+
+    def callee_keys(node, name):
+        keys = []
+        k_ = g.find(name) if name else None
+        if k_ is not None:
+            keys.append(k_)
+        for a in cir.args(node):
+            a2 = cir.strip(a)
+            if a2 is not None and a2.get("k") == "DeclRefExpr" and (a2.get("ref") or {}).get("k") == "FunctionDecl":
+                k2 = g.find(a2["ref"].get("n"))
+                if k2 is not None:
+                    keys.append(k2)
+        return keys
+
+    hosts = {}
+    npairs = set()
+    for tu in engine.engine_tus():
+        u = engine.unit(tu)
+        for fname, fn in u.funcs.items():
+            if (fn.get("file") or u.tu) != u.tu:
+                continue
+            for c in cir.calls(fn):
+                if cir.callee(c) not in SYNC_CALLS or len(cir.args(c)) < 3:
+                    continue
+                sd = _island_side(c)
+                if sd is None:
+                    continue
+                npairs.add(frozenset(sd[:2]))
+                if sd[2]:
+                    hosts.setdefault((tu, fname), {})[(sd[0], sd[1])] = c
+    if not npairs:
+        raise AnalysisError("no gather / scatter between mjData arrays through an island map found: the island copies have moved")
+    res.count("island_copy_pairs", len(npairs))
+    res.count("functions_refreshing_island_copies", len(hosts))
+
+    class Coherent(paths.Rule):
+        def __init__(self, prs):
+            self.prs = prs                      # {(island field, array field)}
+            self.fields = {f for p in prs for f in p}
+
+        def initial(self, fn):
+            return frozenset()                  # {((island, array), line of the write)}
+
+        def _dirty(self, st, fields, node):
+            out = set(st)
+            for pr in self.prs:
+                if set(pr) & fields and not any(d[0] == pr for d in out):
+                    out.add((pr, node.get("line")))
+            return frozenset(out)
+
+        def call(self, st, node, name, ctx):
+            if name in SYNC_CALLS and len(cir.args(node)) >= 3:
+                sd = _island_side(node)
+                if sd is not None and (sd[0], sd[1]) in self.prs:
+                    return frozenset(d for d in st if d[0] != (sd[0], sd[1]))      # either direction makes the pair coherent
+            W = set()
+            for k_ in callee_keys(node, name):
+                W |= closure_sets(k_)[0]
+            if not callee_keys(node, name):
+                for a in cir.args(node):
+                    f = _data_field(a)
+                    if f in self.fields:
+                        W.add(f)
+            hit = W & self.fields
+            return self._dirty(st, hit, node) if hit else st
+
+        def assign(self, st, node, ctx):
+            if node.get("k") == "VarDecl":
+                return st
+            from .. import modref
+            rf = modref.root_field(cir.kids(node)[0])
+            if rf is not None and rf[0] == "mjData" and rf[1] in self.fields and rf[2] > 0:
+                return self._dirty(st, {rf[1]}, node)
+            return st
+
+        def branch(self, st, cond, taken, ctx):
+            nc = paths.norm_cond(cond)
+            if nc is not None:
+                m = re.fullmatch(r"\w+->(\w+)", nc[0])
+                if m and m.group(1) in EXEMPT_FIELDS and (taken != nc[1]):
+                    return frozenset()          # the copy is not consumed on this path
+            return st
+
+        def ret(self, st, node, ctx):
+            for d in sorted(st):
+                ctx.report(node, d)
+
+        def fallthrough(self, st, ctx):
+            for d in sorted(st):
+                ctx.report(ctx.fn, d)
+
+    for (tu, fname), prs in sorted(hosts.items()):
+        u = engine.unit(tu)
+        fn = u.funcs[fname]
+        consumed = set()
+        for c in cir.calls(fn):
+            if cir.callee(c) in SYNC_CALLS:
+                continue
+            for k_ in callee_keys(c, cir.callee(c)):
+                consumed |= closure_sets(k_)[1]
+        for n in cir.walk(fn):
+            # direct reads of the island side inside the function
+            if n.get("k") == "ArraySubscriptExpr":
+                f = _data_field(cir.kids(n)[0])
+                if f is not None:
+                    consumed.add(f)
+        required = {pr for pr in prs if pr[0] not in consumed}
+        for pr in sorted(set(prs) - required):
+            res.ok("R-ISLAND-COPY", f"{fname}:{pr[0]}~{pr[1]}", {"file": tu, "exit_coherence": "not required: the island side is consumed "
+                                                                                                     "inside the function"})
+        if not required:
+            continue
+        ctx = paths.explore(Coherent(required), u, fn)
+        bad = {}
+        for r in ctx.reports:
+            key, line = r["msg"]
+            bad.setdefault(key, (line, r["line"]))
+        for pr in sorted(required):
+            construct = f"{fname}:{pr[0]}~{pr[1]}"
+            if pr in bad:
+                wl, xl = bad[pr]
+                res.bad("R-ISLAND-COPY", construct, tu, wl,
+                        f"in {fname}, d->{pr[1]} (or its island-ordered copy d->{pr[0]}) is rewritten at line {wl} and a path reaches the "
+                        f"exit (line {xl}) without the refresh `gather({pr[0]} <- {pr[1]})` that the function performs on other paths, "
+                        f"although d->nisland may be non-zero there: the island solver then works with values the monolithic and "
+                        f"inverse computations do not see")
+            else:
+                res.ok("R-ISLAND-COPY", construct, {"file": tu, "exit_coherence": "required and held on all paths"})
+
+
 def run(res, tier):
     uf = engine.unit(FWD)
     ui = engine.unit(INV)
@@ -205,6 +406,10 @@ def run(res, tier):
     for sk in ("mjSTAGE_NONE",):
         evs = FI.flatten(ui.funcs["mj_inverseSkip"], {"skipstage": enum[sk], "skipsensor": 0})
         r_fresh.check(res, "R-FRESH", f"mj_inverseSkip({sk})", evs, INV)
+
+
+    # ---------------------------------------------------------------- R-ISLAND-COPY
+    island_copies(res)
 
     res.explanation = (
         "Sibling agreement between each forward integrator (specialised by constant-folding the integrator tests) and the "
